@@ -110,6 +110,10 @@ theorem add_column_default (i : Info) (f : Frame) (n : Str) (du fm : Option Str)
     (h : addColumn i f n none du fm = (i', none)) :
     ∃ m, Spec.lookup i'.reg n = some m ∧ m.unit = Spec.defaultUnit c.kind ∧ i'.last = none := by
   unfold addColumn at h
+  by_cases hd : dupLabel f n = true
+  · simp [hd] at h
+  simp only [Option.isNone_none, Bool.true_and, hd, Bool.false_eq_true, if_false] at h
+  unfold addColumnCore at h
   simp only [hc] at h
   cases hu : unitFromKind c.kind with
   | error e => simp [hu] at h
@@ -321,6 +325,10 @@ theorem finalize_goodC (srcs : List Reg) (strict : Bool) (f : Frame) (i : Info)
 theorem addColumn_last (i : Info) (f : Frame) (n : Str) (u du fm : Option Str) :
     (addColumn i f n u du fm).1.last = none := by
   unfold addColumn
+  by_cases hd : (u.isNone && dupLabel f n) = true
+  · simp [hd]
+  simp only [hd]
+  unfold addColumnCore
   simp only
   cases hfind : f.cols.find? (fun c => c.name = n) with
   | none => rfl
